@@ -779,3 +779,33 @@ Definition c18_step (V : view) (ob : obs) : clauses :=
       | None => [] end
   | _ => [] end.
 Definition mon_C18 := mon_run (stateless c18_step) tt.
+
+(* ================= C13: a correctly operated epoch always runs to completion (family `honest`) ================= *)
+Fixpoint final_view (V : view) (tr : list obs) : view :=
+  match tr with [] => V | (_, _, post) :: tl => final_view (vupd V post) tl end.
+Fixpoint first_refused (tr : list obs) (i : N) : option viol :=
+  match tr with
+  | [] => None
+  | (o, ok, _) :: tl => if is_tx o && negb ok then Some (i, default_key, 1, 0) else first_refused tl (i + 1)
+  end.
+Definition c13_end (V : view) : clauses :=
+  flat_map (fun '(k, a) =>
+    match dist_of a with
+    | Some (d, t) =>
+        if d_swept d then
+          let residue := d_prepaid_2z d + d_swept_2z d - d_distributed_2z d - d_burned_2z d in
+          chk (d_distributed_count d =? d_total_contributors d) k 2 (d_distributed_count d) ++
+          chk ((d_debt_end d <=? d_debt_start d) || (d_payments_count d + d_writeoff_count d =? d_total_validators d)) k 3 (d_payments_count d) ++
+          chk (residue <? N.max 1 (d_total_contributors d)) k 4 residue ++
+          chk (tok_amount (vget V (KTok2z k)) =? residue) k 5 (tok_amount (vget V (KTok2z k))) ++
+          chk (rent (alen a) <=? lamports a) k 6 (lamports a)
+        else []
+    | None => [] end) V.
+Definition mon_C13 (tr : list robs) : option viol :=
+  let tr' := expand [] tr in
+  match first_refused tr' 0 with
+  | Some v => Some v
+  | None => match c13_end (final_view [] tr') with
+            | (k, c, w) :: _ => Some (N.of_nat (length tr'), k, c, w)
+            | [] => None end
+  end.
